@@ -129,8 +129,12 @@ func runTasksR(tasks []C19Task, rs *simrt.RSched, only int) *rRun {
 	mark := raceLogSize()
 	simrt.Active = true
 	ok := rs.Run(60 * time.Second)
-	simrt.Active = false
 	_, _, _, dl, ovf, ovr := rs.Stats()
+	if ok && !dl {
+		// (after a stall or deadlock parked tasks are still alive and have read this variable:
+		// the process is abandoned, and nothing they may have read is written any more)
+		simrt.Active = false
+	}
 	run.stalled, run.deadlock, run.overflow, run.overrun = !ok, dl, ovf, ovr
 	run.unowned = rs.UnownedSeen
 	for _, st := range sts {
@@ -138,21 +142,25 @@ func runTasksR(tasks []C19Task, rs *simrt.RSched, only int) *rRun {
 		run.acc = append(run.acc, st.AccYields)
 	}
 	if raceLogSize() > mark {
-		run.race = raceLogFrom(mark)
+		// whatever else the library or a dependency printed to stderr is not a report
+		if txt := raceLogFrom(mark); strings.Contains(txt, "WARNING: DATA RACE") {
+			run.race = txt[strings.Index(txt, "WARNING: DATA RACE"):]
+		}
 	}
 	return run
 }
 
 type rEval struct {
-	clauses  map[string]string
-	sites    []string
-	inter    *rRun
-	solo     []*rRun
-	abandon  string // the process state is no longer trustworthy (deadlock, stall): stop this process
-	harness  string // a report that names no library frame: trouble of the harness, not a verdict
-	unowned  bool   // goroutines the scheduler did not start were running: not a simulation
-	switches int
-	skip     string // why there was no interleaved run to judge
+	clauses       map[string]string
+	sites         []string
+	inter         *rRun
+	solo          []*rRun
+	abandon       string // the process state is no longer trustworthy (deadlock, stall): stop this process
+	harness       string // a report that names no library frame: trouble of the harness, not a verdict
+	unowned       bool   // goroutines the scheduler did not start were running: not a simulation
+	switches      int
+	skip          string // why there was no interleaved run to judge
+	notRepeatable int
 }
 
 var frameRe = regexp.MustCompile(`(?m)^\s+(\S+?)\(.*\)\n\s+(\S+\.go):(\d+) \+0x`)
@@ -265,6 +273,15 @@ func evalR(tasks []C19Task, mk func(solo []*rRun) *simrt.RSched) *rEval {
 			if a.Fingerprint() != b.Fingerprint() {
 				spec := opByName[tasks[ti].Calls[ci].Op]
 				if spec != nil && spec.SetOp && !orderedOps[spec.Name] && canonResult(spec, a) == canonResult(spec, b) {
+					continue
+				}
+				// a call that does not even repeat its own result when run alone again is C16's
+				// matter, not a concurrency finding
+				if again := runTasksR(tasks, func() *simrt.RSched { r := simrt.NewRSched(nil); r.AbortYields = 60_000_000; return r }(), ti); again.stalled || again.deadlock || again.results[ti] == nil || again.results[ti][ci].Fingerprint() != a.Fingerprint() {
+					ev.notRepeatable++
+					if again.stalled || again.deadlock {
+						ev.abandon = "solo re-run stalled"
+					}
 					continue
 				}
 				if _, dup := ev.clauses["laneR-result-differs-from-solo"]; !dup {
